@@ -287,4 +287,4 @@ PROP = Prop(
     ],
 )
 
-RULE_EXTRA = ('models with integer means asked at thresholds held as uint8 / int8 / uint16 / int64 / lists / Python ints; rates down to 3e-310 (subnormal); roc() of models with |mu| up to 3e9 and sigma down to 5e-7; p within 1e-4..1e-11 of a multiple of 1/n; floor tolerance max(1e-13, 4e-16 q).')
+RULE_EXTRA = ('models with integer means asked at thresholds held as uint8 / int8 / uint16 / int64 / lists / Python ints; rates down to 3e-310 (subnormal); roc() of models with |mu| up to 3e9 and sigma down to 5e-7; p within 1e-4..1e-11 of a multiple of 1/n; floor tolerance max(1e-13, 4e-16 q). The returned model is edited and the same from_metrics request repeated.')
